@@ -126,7 +126,7 @@ def build(variant="rel", extra=()):
     for old in glob.glob(os.path.join(BUILD, "lib", tag + "-*")):
         if re.match(r"^[0-9a-f]{16}$", os.path.basename(old)[len(tag) + 1:]) and time.time() - os.path.getmtime(old) > 900:
             shutil.rmtree(old, ignore_errors=True)
-    tmp = d + ".tmp%d" % os.getpid()
+    tmp = d + ".tmp%d_%s" % (os.getpid(), uuid.uuid4().hex[:8])      # unique per call: threads of one process may build concurrently
     os.makedirs(tmp, exist_ok=True)
     jobs, objs = [], []
     inc = ["-I" + os.path.join(REPO, "include"), "-I" + os.path.join(REPO, "src")]
@@ -145,7 +145,9 @@ def build(variant="rel", extra=()):
     try:
         os.rename(tmp, d)
     except OSError:
-        shutil.rmtree(tmp, ignore_errors=True)
+        shutil.rmtree(tmp, ignore_errors=True)          # somebody else finished the same build first
+    if not os.path.exists(lib):
+        raise BuildError("library build (%s): %s missing after the build" % (variant, lib))
     log("[build] %s in %.1fs -> %s" % (variant, time.time() - t0, d))
     return d
 
@@ -175,11 +177,13 @@ def harness(name, sources, variant="rel", extra=(), libs=(), lib_extra=()):
         except OSError:
             pass
     inc = ["-I" + os.path.join(REPO, "include"), "-I" + os.path.join(REPO, "src"), "-I" + HARNESS]
-    cmd = [cc] + flags + inc + srcs + [os.path.join(libdir, "libbee2.a")] + list(libs) + ["-lpthread", "-o", out + ".tmp"]
+    cmd = [cc] + flags + inc + srcs + [os.path.join(libdir, "libbee2.a")] + list(libs) + ["-lpthread", "-o", "@TMP@"]
+    tmpo = out + ".tmp%d_%s" % (os.getpid(), uuid.uuid4().hex[:8])
+    cmd[-1] = tmpo
     r = sh(cmd, capture_output=True)
     if r.returncode != 0:
         raise BuildError("harness %s failed:\n%s" % (name, r.stderr.decode()[-4000:]))
-    os.rename(out + ".tmp", out)
+    os.rename(tmpo, out)
     return out
 
 
